@@ -27,7 +27,7 @@ void harness(void)
 	/* roles: P[0] = a (position / node operated on), P[1] = b (inserted node), P[2] = a's successor, P[3] = a's
 	 * predecessor, P[4] = a's parent, P[5] = any other node; which neighbours exist is symbolic, and so is every
 	 * link that leads out of the neighbourhood (to the outsider or nowhere) */
-	IN(int, in_has_next); IN(int, in_has_prev); IN(int, in_has_par); IN(int, in_g); int in_out[12];
+	IN(int, in_has_next); IN(int, in_has_prev); IN(int, in_has_par); IN(int, in_g); int in_out[12]; V_FILL(in_out);
 	node_t *a = &P[0], *b = &P[1], *X = &P[5]; int i, in_a = 0, in_b = 1;
 #define OUT(k_) (in_out[k_] ? X : (node_t *) 0)
 	for (i = 0; i < NP; i++) { P[i]._meta = 0; P[i].next = P[i].prev = P[i].parent = P[i].children = 0; }
